@@ -3,6 +3,12 @@
 import json, os
 ROOT = os.path.dirname(os.path.abspath(__file__))
 reg = json.load(open(os.path.join(ROOT, "checks", "registry.json")))
+rd = os.path.join(ROOT, "checks", "registry.d")
+for f in sorted(os.listdir(rd)) if os.path.isdir(rd) else []:
+    if f.endswith(".json"):
+        e = json.load(open(os.path.join(rd, f)))
+        reg["claimed"][e["property_id"]] = e
+        reg.setdefault("hook_commits", []).extend(e.get("hook_commits", []))
 props = [json.loads(l)["id"] for l in open(os.path.join(ROOT, "properties.jsonl"))]
 checks = []
 for pid in props:
